@@ -1,34 +1,25 @@
-(* B64P: the binary64 rounding of Model/Digits.v - range, relative error 2^-53, exactness on integers
-   below 2^53. *)
+(* B64P: rounding of a positive rational to P digits in a base (Digits.round_float): range of the
+   mantissa, half-unit error; the binary64 instance: relative error 2^-53, exactness on integers
+   below 2^53; sign/positivity facts about NumFormat.value_rat. *)
 From Coq Require Import ZArith NArith List Bool Lia.
-From NP Require Import Model.PyBase Model.Digits Proofs.DigitsP.
+From NP Require Import Model.PyBase Model.Digits Model.C13Tables Model.NumFormat Proofs.DigitsP.
 Import ListNotations.
 Open Scope Z_scope.
 Ltac Zify.zify_post_hook ::= Z.to_euclidean_division_equations.
 
-(* n/(d*2^e) written with non-negative powers only *)
-Definition scA (n e : Z) : Z := if 0 <=? e then n else n * 2 ^ (- e).
-Definition scB (d e : Z) : Z := if 0 <=? e then d * 2 ^ e else d.
-
-Lemma scA_pos n e : 0 < n -> 0 < scA n e.
+Lemma scA_pos b n e : 0 < b -> 0 < n -> 0 < scA b n e.
 Proof. intros. unfold scA. destruct (Z.leb_spec 0 e); [assumption|]. apply Z.mul_pos_pos; [assumption|apply pow_pos_b; lia]. Qed.
-Lemma scB_pos d e : 0 < d -> 0 < scB d e.
+Lemma scB_pos b d e : 0 < b -> 0 < d -> 0 < scB b d e.
 Proof. intros. unfold scB. destruct (Z.leb_spec 0 e); [|assumption]. apply Z.mul_pos_pos; [assumption|apply pow_pos_b; lia]. Qed.
 
-(* one more binary place halves the scaled value *)
-Lemma sc_succ n d e : 2 * scA n (e + 1) * scB d e = scA n e * scB d (e + 1).
+(* one more place divides the scaled value by the base *)
+Lemma sc_succ b n d e : b * scA b n (e + 1) * scB b d e = scA b n e * scB b d (e + 1).
 Proof.
   unfold scA, scB. destruct (Z.leb_spec 0 e); destruct (Z.leb_spec 0 (e + 1)); try lia.
   - rewrite pow_succ_b by lia. ring.
-  - assert (e = -1) by lia. subst e. change (2 ^ (- (-1))) with 2. change (2 ^ (-1 + 1)) with 1. ring.
+  - assert (e = -1) by lia. subst e. change (- (-1)) with 1. change (-1 + 1) with 0.
+    rewrite Z.pow_1_r, Z.pow_0_r. ring.
   - replace (- e) with (- (e + 1) + 1) by lia. rewrite pow_succ_b by lia. ring.
-Qed.
-
-Lemma quot_bounds A B lo hi : 0 < B -> lo * B <= A < hi * B -> lo <= A / B < hi.
-Proof.
-  intros HB [H1 H2]. split.
-  - apply Z.div_le_lower_bound; lia.
-  - apply Z.div_lt_upper_bound; lia.
 Qed.
 
 Lemma quot_ge A B lo : 0 < B -> (lo <= A / B <-> lo * B <= A).
@@ -38,98 +29,165 @@ Proof.
   - apply Z.div_le_lower_bound; lia.
 Qed.
 
-(* first exponent guess: the scaled value lies in [2^52, 2^54) *)
-Lemma guess_bounds n d : 0 < n -> 0 < d ->
-  let e0 := Z.log2 n - Z.log2 d - 53 in
-  2 ^ 52 * scB d e0 <= scA n e0 < 2 ^ 54 * scB d e0.
+Lemma mul_cancel_le k x y : 0 < k -> k * x <= k * y -> x <= y.
+Proof. intros. nia. Qed.
+Lemma mul_cancel_lt k x y : 0 < k -> k * x < k * y -> x < y.
+Proof. intros. nia. Qed.
+
+(* exponent guess from the digit counts: the scaled value lies in [b^(P-1), b^(P+1)) *)
+Lemma guess_bounds b P n d : 2 <= b -> 1 <= P -> 0 < n -> 0 < d ->
+  let e0 := nbdig b n - nbdig b d - P in
+  b ^ (P - 1) * scB b d e0 <= scA b n e0 < b * (b * b ^ (P - 1)) * scB b d e0.
 Proof.
-  intros Hn Hd e0.
-  pose proof (Z.log2_spec n Hn) as [Hn1 Hn2]. pose proof (Z.log2_spec d Hd) as [Hd1 Hd2].
-  pose proof (Z.log2_nonneg n) as Ln. pose proof (Z.log2_nonneg d) as Ld.
-  set (ln := Z.log2 n) in *. set (ld := Z.log2 d) in *.
-  rewrite <- Z.add_1_r in Hn2, Hd2. rewrite pow_succ_b in Hn2, Hd2 by lia.
-  assert (Ha : 0 < 2 ^ ld) by (apply pow_pos_b; lia).
+  intros Hb HP Hn Hd e0.
+  pose proof (nbdig_spec b n Hb Hn) as [Ha [Hn1 Hn2]]. pose proof (nbdig_spec b d Hb Hd) as [Hc [Hd1 Hd2]].
+  set (a := nbdig b n) in *. set (c := nbdig b d) in *.
+  assert (Hp1 : 0 < b ^ (P - 1)) by (apply pow_pos_b; lia).
+  assert (Hc1 : 0 < b ^ (c - 1)) by (apply pow_pos_b; lia).
+  assert (Hbc : b ^ c = b * b ^ (c - 1)) by (replace c with ((c - 1) + 1) at 1 by lia; apply pow_succ_b; lia).
+  assert (Hba : b ^ a = b * b ^ (a - 1)) by (replace a with ((a - 1) + 1) at 1 by lia; apply pow_succ_b; lia).
   unfold scA, scB. destruct (Z.leb_spec 0 e0).
-  - assert (E : 2 ^ ln = 2 ^ 53 * (2 ^ ld * 2 ^ e0)).
-    { rewrite <- !Z.pow_add_r by lia. f_equal. unfold e0. lia. }
-    assert (0 < 2 ^ e0) by (apply pow_pos_b; lia).
-    change (2 ^ 54) with (2 * 2 ^ 53). change (2 ^ 53) with (2 * 2 ^ 52) in *.
-    set (p52 := 2 ^ 52) in *. assert (0 < p52) by (unfold p52; lia).
-    set (a := 2 ^ ld) in *. set (E0 := 2 ^ e0) in *. set (L := 2 ^ ln) in *. nia.
-  - assert (E : 2 ^ ln * 2 ^ (- e0) = 2 ^ 53 * 2 ^ ld).
-    { rewrite <- !Z.pow_add_r by lia. f_equal. unfold e0. lia. }
-    assert (0 < 2 ^ (- e0)) by (apply pow_pos_b; lia).
-    change (2 ^ 54) with (2 * 2 ^ 53). change (2 ^ 53) with (2 * 2 ^ 52) in *.
-    set (p52 := 2 ^ 52) in *. assert (0 < p52) by (unfold p52; lia).
-    set (a := 2 ^ ld) in *. set (E0 := 2 ^ (- e0)) in *. set (L := 2 ^ ln) in *. nia.
+  - assert (0 < b ^ e0) by (apply pow_pos_b; lia).
+    assert (E : b ^ (a - 1) = b ^ (P - 1) * (b * b ^ (c - 1) * b ^ e0)).
+    { rewrite <- Hbc. rewrite <- !Z.pow_add_r by lia. f_equal. unfold e0. lia. }
+    set (p := b ^ (P - 1)) in *. set (C := b ^ (c - 1)) in *. set (E0 := b ^ e0) in *. set (L := b ^ (a - 1)) in *.
+    rewrite Hba in Hn2. rewrite Hbc in Hd2.
+    split.
+    + assert (p * (d * E0) < p * (b * C * E0)) by (apply Z.mul_lt_mono_pos_l; [assumption|nia]). lia.
+    + assert (n < b * (p * (b * C * E0))) by lia.
+      assert (b * (p * (b * C * E0)) <= b * (b * p) * (d * E0)).
+      { replace (b * (p * (b * C * E0))) with (b * (b * p) * (C * E0)) by ring.
+        apply Z.mul_le_mono_nonneg_l; [nia|]. apply Z.mul_le_mono_nonneg_r; lia. }
+      lia.
+  - assert (0 < b ^ (- e0)) by (apply pow_pos_b; lia).
+    assert (E : b ^ (a - 1) * b ^ (- e0) = b ^ (P - 1) * (b * b ^ (c - 1))).
+    { rewrite <- Hbc. rewrite <- !Z.pow_add_r by lia. f_equal. unfold e0. lia. }
+    set (p := b ^ (P - 1)) in *. set (C := b ^ (c - 1)) in *. set (E0 := b ^ (- e0)) in *. set (L := b ^ (a - 1)) in *.
+    rewrite Hba in Hn2. rewrite Hbc in Hd2.
+    split.
+    + assert (p * d < p * (b * C)) by (apply Z.mul_lt_mono_pos_l; assumption).
+      assert (L * E0 <= n * E0) by (apply Z.mul_le_mono_nonneg_r; lia). lia.
+    + assert (n * E0 < b * L * E0) by (apply Z.mul_lt_mono_pos_r; assumption).
+      assert (b * L * E0 = b * (b * p) * C) by (replace (b * L * E0) with (b * (L * E0)) by ring; rewrite E; ring).
+      assert (b * (b * p) * C <= b * (b * p) * d) by (apply Z.mul_le_mono_nonneg_l; [nia|lia]).
+      lia.
 Qed.
 
-Lemma b64_unfold n d :
-  b64_of_rat n d =
-  let e0 := Z.log2 n - Z.log2 d - 53 in
-  let q0 := scA n e0 / scB d e0 in
-  let e := if 2 ^ 53 <=? q0 then e0 + 1 else e0 in
-  let m := rne_div (scA n e) (scB d e) in
-  if m =? 2 ^ 53 then (2 ^ 52, e + 1) else (m, e).
+(* the exponent chosen before rounding *)
+Definition rf_exp (b P n d : Z) : Z :=
+  let e0 := nbdig b n - nbdig b d - P in
+  if b ^ P <=? scA b n e0 / scB b d e0 then e0 + 1 else e0.
+
+Lemma round_float_eq b P n d :
+  round_float b P n d =
+  let e := rf_exp b P n d in
+  let m := rne_div (scA b n e) (scB b d e) in
+  if m =? b ^ P then (b ^ (P - 1), e + 1) else (m, e).
+Proof. reflexivity. Qed.
+
+(* at the chosen exponent the scaled value has exactly P digits *)
+Lemma rf_exp_range b P n d : 2 <= b -> 1 <= P -> 0 < n -> 0 < d ->
+  let e := rf_exp b P n d in
+  b ^ (P - 1) * scB b d e <= scA b n e < b ^ P * scB b d e.
 Proof.
-  unfold b64_of_rat, scA, scB. cbv zeta.
-  set (e0 := Z.log2 n - Z.log2 d - 53).
-  assert (Hq : (if 0 <=? e0 then n / (d * 2 ^ e0) else n * 2 ^ (- e0) / d)
-               = (if 0 <=? e0 then n else n * 2 ^ (- e0)) / (if 0 <=? e0 then d * 2 ^ e0 else d))
-    by (destruct (0 <=? e0); reflexivity).
-  rewrite Hq.
-  set (e := if 2 ^ 53 <=? _ then e0 + 1 else e0).
-  assert (Hm : (if 0 <=? e then rne_div n (d * 2 ^ e) else rne_div (n * 2 ^ (- e)) d)
-               = rne_div (if 0 <=? e then n else n * 2 ^ (- e)) (if 0 <=? e then d * 2 ^ e else d))
-    by (destruct (0 <=? e); reflexivity).
-  rewrite Hm. reflexivity.
+  intros Hb HP Hn Hd. unfold rf_exp.
+  pose proof (guess_bounds b P n d Hb HP Hn Hd) as Hg. cbv zeta in Hg.
+  assert (HbP : b ^ P = b * b ^ (P - 1)) by (replace P with ((P - 1) + 1) at 1 by lia; apply pow_succ_b; lia).
+  rewrite HbP.
+  assert (Hp : 0 < b ^ (P - 1)) by (apply pow_pos_b; lia).
+  set (p := b ^ (P - 1)) in *.
+  set (e0 := nbdig b n - nbdig b d - P) in *.
+  assert (Hb0 : 0 < b) by lia.
+  pose proof (scB_pos b d e0 Hb0 Hd) as HB0. pose proof (scA_pos b n e0 Hb0 Hn) as HA0.
+  cbv zeta. destruct (Z.leb_spec (b * p) (scA b n e0 / scB b d e0)) as [Hq|Hq].
+  - apply (proj1 (quot_ge _ _ (b * p) HB0)) in Hq.
+    pose proof (sc_succ b n d e0) as Hs.
+    pose proof (scB_pos b d (e0 + 1) Hb0 Hd). pose proof (scA_pos b n (e0 + 1) Hb0 Hn).
+    set (A0 := scA b n e0) in *. set (B0 := scB b d e0) in *.
+    set (A1 := scA b n (e0 + 1)) in *. set (B1 := scB b d (e0 + 1)) in *.
+    assert (0 < b * B0) by nia.
+    split.
+    + apply (mul_cancel_le (b * B0)); [assumption|].
+      replace (b * B0 * A1) with (A0 * B1) by lia.
+      replace (b * B0 * (p * B1)) with (b * p * B0 * B1) by ring.
+      apply Z.mul_le_mono_nonneg_r; lia.
+    + apply (mul_cancel_lt (b * B0)); [assumption|].
+      replace (b * B0 * A1) with (A0 * B1) by lia.
+      replace (b * B0 * (b * p * B1)) with (b * (b * p) * B0 * B1) by ring.
+      apply Z.mul_lt_mono_pos_r; lia.
+  - split; [lia|].
+    destruct (Z_lt_le_dec (scA b n e0) (b * p * scB b d e0)) as [|Hge]; [assumption|].
+    apply (proj2 (quot_ge _ _ (b * p) HB0)) in Hge. lia.
 Qed.
 
-(* the result (m, e): 2^52 <= m < 2^53 and m is within half a unit of the scaled value *)
+(* the result (m, e): b^(P-1) <= m < b^P and m is within half a unit of the scaled value *)
+Lemma round_float_spec b P n d : 2 <= b -> 1 <= P -> 0 < n -> 0 < d ->
+  let '(m, e) := round_float b P n d in
+  b ^ (P - 1) <= m < b ^ P /\ 2 * Z.abs (m * scB b d e - scA b n e) <= scB b d e.
+Proof.
+  intros Hb HP Hn Hd. rewrite round_float_eq.
+  pose proof (rf_exp_range b P n d Hb HP Hn Hd) as Hrange. cbv zeta in *.
+  assert (HbP : b ^ P = b * b ^ (P - 1)) by (replace P with ((P - 1) + 1) at 1 by lia; apply pow_succ_b; lia).
+  rewrite HbP in *.
+  assert (Hp : 0 < b ^ (P - 1)) by (apply pow_pos_b; lia).
+  set (p := b ^ (P - 1)) in *. set (e := rf_exp b P n d) in *.
+  assert (Hb0 : 0 < b) by lia.
+  pose proof (scB_pos b d e Hb0 Hd) as HB. pose proof (scA_pos b n e Hb0 Hn) as HA.
+  pose proof (rne_div_spec (scA b n e) (scB b d e) ltac:(lia) HB) as [Hm0 Hm]. cbv zeta in Hm.
+  set (m := rne_div (scA b n e) (scB b d e)) in *.
+  set (A := scA b n e) in *. set (B := scB b d e) in *.
+  assert (Hm52 : p <= m <= b * p).
+  { split.
+    - assert (2 * (p * B) - B <= 2 * (m * B)) by lia. nia.
+    - assert (2 * (m * B) < 2 * (b * p * B) + B) by lia. nia. }
+  destruct (Z.eqb_spec m (b * p)) as [E|E].
+  - split; [nia|].
+    pose proof (sc_succ b n d e) as Hs. fold A B in Hs.
+    pose proof (scB_pos b d (e + 1) Hb0 Hd). pose proof (scA_pos b n (e + 1) Hb0 Hn).
+    set (A1 := scA b n (e + 1)) in *. set (B1 := scB b d (e + 1)) in *.
+    rewrite E in Hm.
+    assert (Hk : b * B * (p * B1 - A1) = (b * p * B - A) * B1) by lia.
+    set (X := p * B1 - A1) in *. set (dl := b * p * B - A) in *.
+    assert (Hdl : 0 <= 2 * dl <= B) by lia.
+    assert (0 < b * B) by nia.
+    assert (HX : 0 <= X).
+    { apply (mul_cancel_le (b * B)); [assumption|]. rewrite Z.mul_0_r, Hk. apply Z.mul_nonneg_nonneg; lia. }
+    rewrite Z.abs_eq by assumption.
+    assert (2 * (b * B * X) <= B * B1).
+    { rewrite Hk. replace (2 * (dl * B1)) with (2 * dl * B1) by ring. apply Z.mul_le_mono_nonneg_r; lia. }
+    assert (2 * (B * X) <= 2 * (b * B * X)).
+    { replace (2 * (b * B * X)) with (b * (2 * (B * X))) by ring. assert (0 <= 2 * (B * X)) by nia. nia. }
+    apply (mul_cancel_le B); [assumption|]. lia.
+  - split; [lia|]. fold A B. lia.
+Qed.
+
+(* integers with at most P digits are exact *)
+Lemma round_float_exact_int b P n : 2 <= b -> 1 <= P -> 0 < n < b ^ P ->
+  let '(m, e) := round_float b P n 1 in e <= 0 /\ m = n * b ^ (- e).
+Proof.
+  intros Hb HP [Hn Hlt]. rewrite round_float_eq.
+  pose proof (rf_exp_range b P n 1 Hb HP Hn ltac:(lia)) as Hrange. cbv zeta in *.
+  assert (HbP : b ^ P = b * b ^ (P - 1)) by (replace P with ((P - 1) + 1) at 1 by lia; apply pow_succ_b; lia).
+  assert (Hp : 0 < b ^ (P - 1)) by (apply pow_pos_b; lia).
+  set (e := rf_exp b P n 1) in *.
+  assert (He : e <= 0).
+  { destruct (Z_le_gt_dec e 0) as [|Hgt]; [assumption|exfalso].
+    unfold scA, scB in Hrange. destruct (Z.leb_spec 0 e); [|lia].
+    assert (b ^ 1 <= b ^ e) by (apply Z.pow_le_mono_r; lia). rewrite Z.pow_1_r in *.
+    rewrite HbP in Hlt. set (p := b ^ (P - 1)) in *. set (E := b ^ e) in *. nia. }
+  assert (HB : scB b 1 e = 1).
+  { unfold scB. destruct (Z.leb_spec 0 e); [|reflexivity]. assert (e = 0) by lia. subst e. replace (rf_exp b P n 1) with 0 by lia. reflexivity. }
+  assert (HA : scA b n e = n * b ^ (- e)).
+  { unfold scA. destruct (Z.leb_spec 0 e); [|reflexivity]. assert (E0 : e = 0) by lia. rewrite E0. cbn. lia. }
+  rewrite HB in *. rewrite rne_div_exact by (try apply Z.mod_1_r; lia). rewrite Z.div_1_r.
+  destruct (Z.eqb_spec (scA b n e) (b ^ P)); [lia|]. split; assumption.
+Qed.
+
+(* ---------- binary64 ---------- *)
 Lemma b64_of_rat_spec n d : 0 < n -> 0 < d ->
   let '(m, e) := b64_of_rat n d in
-  2 ^ 52 <= m < 2 ^ 53 /\ 2 * Z.abs (m * scB d e - scA n e) <= scB d e.
-Proof.
-  intros Hn Hd. rewrite b64_unfold. cbv zeta.
-  pose proof (guess_bounds n d Hn Hd) as Hg. cbv zeta in Hg.
-  set (e0 := Z.log2 n - Z.log2 d - 53) in *.
-  set (q0 := scA n e0 / scB d e0).
-  pose proof (scB_pos d e0 Hd) as HB0. pose proof (scA_pos n e0 Hn) as HA0.
-  assert (Hrange : let e := if 2 ^ 53 <=? q0 then e0 + 1 else e0 in
-                   2 ^ 52 * scB d e <= scA n e < 2 ^ 53 * scB d e).
-  { cbv zeta. destruct (Z.leb_spec (2 ^ 53) q0) as [Hq|Hq].
-    - apply quot_ge in Hq; [|assumption].
-      pose proof (sc_succ n d e0) as Hs.
-      pose proof (scB_pos d (e0 + 1) Hd). pose proof (scA_pos n (e0 + 1) Hn).
-      change (2 ^ 54) with (2 * 2 ^ 53) in Hg. change (2 ^ 53) with (2 * 2 ^ 52) in *.
-      set (p52 := 2 ^ 52) in *. assert (0 < p52) by (unfold p52; lia).
-      set (A0 := scA n e0) in *. set (B0 := scB d e0) in *.
-      set (A1 := scA n (e0 + 1)) in *. set (B1 := scB d (e0 + 1)) in *.
-      split; nia.
-    - split; [lia|]. unfold q0 in Hq.
-      destruct (Z_lt_le_dec (scA n e0) (2 ^ 53 * scB d e0)) as [|Hge]; [assumption|].
-      apply quot_ge in Hge; [lia|assumption]. }
-  cbv zeta in Hrange. set (e := if 2 ^ 53 <=? q0 then e0 + 1 else e0) in *.
-  pose proof (scB_pos d e Hd) as HB. pose proof (scA_pos n e Hn) as HA.
-  pose proof (rne_div_spec (scA n e) (scB d e) ltac:(lia) HB) as [Hm0 Hm]. cbv zeta in Hm.
-  set (m := rne_div (scA n e) (scB d e)) in *.
-  set (A := scA n e) in *. set (B := scB d e) in *.
-  assert (Hm52 : 2 ^ 52 <= m <= 2 ^ 53).
-  { change (2 ^ 53) with (2 * 2 ^ 52) in *. set (p52 := 2 ^ 52) in *. assert (0 < p52) by (unfold p52; lia). split; nia. }
-  destruct (Z.eqb_spec m (2 ^ 53)) as [E|E].
-  - split; [lia|].
-    pose proof (sc_succ n d e) as Hs. fold A B in Hs.
-    pose proof (scB_pos d (e + 1) Hd). pose proof (scA_pos n (e + 1) Hn).
-    set (A1 := scA n (e + 1)) in *. set (B1 := scB d (e + 1)) in *.
-    rewrite E in Hm. change (2 ^ 53) with (2 * 2 ^ 52) in *. set (p52 := 2 ^ 52) in *.
-    assert (0 < p52) by (unfold p52; lia).
-    assert (Hk : 2 * B * (p52 * B1 - A1) = (2 * p52 * B - A) * B1) by lia.
-    set (X := p52 * B1 - A1) in *. set (dl := 2 * p52 * B - A) in *.
-    assert (0 <= 2 * dl <= B) by lia.
-    assert (0 <= X) by nia. assert (4 * B * X <= B * B1) by nia.
-    rewrite Z.abs_eq by assumption. nia.
-  - split; [lia|]. apply Z.abs_case_strong; intros; lia.
-Qed.
+  2 ^ 52 <= m < 2 ^ 53 /\ 2 * Z.abs (m * scB 2 d e - scA 2 n e) <= scB 2 d e.
+Proof. intros. apply (round_float_spec 2 53 n d); lia. Qed.
 
 (* as an exact rational: positive, and within 2^-53 (relative) of n/d *)
 Lemma b64_rat_spec n d : 0 < n -> 0 < d ->
@@ -143,30 +201,57 @@ Proof.
     split; [nia|]. split; [lia|].
     replace (m * E * d - n * 1) with (m * (d * E) - n) by ring.
     change (2 ^ 53) with (2 * 2 ^ 52). set (p52 := 2 ^ 52) in *. assert (0 < p52) by (unfold p52; lia).
-    set (X := Z.abs (m * (d * E) - n)) in *. nia.
+    set (X := Z.abs (m * (d * E) - n)) in *.
+    assert (p52 * (d * E) <= m * (d * E)) by (apply Z.mul_le_mono_nonneg_r; nia).
+    nia.
   - assert (0 < 2 ^ (- e)) by (apply pow_pos_b; lia). set (E := 2 ^ (- e)) in *.
     split; [lia|]. split; [lia|].
     change (2 ^ 53) with (2 * 2 ^ 52). set (p52 := 2 ^ 52) in *. assert (0 < p52) by (unfold p52; lia).
-    set (X := Z.abs (m * d - n * E)) in *. nia.
+    set (X := Z.abs (m * d - n * E)) in *.
+    assert (p52 * d <= m * d) by (apply Z.mul_le_mono_nonneg_r; lia).
+    nia.
 Qed.
 
 (* integers below 2^53 are exact *)
 Lemma b64_int_exact n : 0 < n < 2 ^ 53 ->
   let '(vn, vd) := rat_of_b64 (b64_of_rat n 1) in 0 < vd /\ vn = n * vd.
 Proof.
-  intros [Hn Hlt].
-  pose proof (b64_of_rat_spec n 1 Hn ltac:(lia)) as H.
-  destruct (b64_of_rat n 1) as [m e]. destruct H as [[Hm1 Hm2] Herr].
-  unfold rat_of_b64, scA, scB in *. destruct (Z.leb_spec 0 e).
-  - assert (0 < 2 ^ e) by (apply pow_pos_b; lia).
-    (* m*2^e within half a unit in the last place of an integer below 2^53: only e = 0 is possible *)
-    assert (e = 0).
-    { destruct (Z.eq_dec e 0); [assumption|exfalso].
-      assert (2 <= 2 ^ e) by (change 2 with (2 ^ 1) at 1; apply Z.pow_le_mono_r; lia).
-      set (E := 2 ^ e) in *. change (2 ^ 53) with (2 * 2 ^ 52) in *. set (p52 := 2 ^ 52) in *.
-      assert (0 < p52) by (unfold p52; lia).
-      revert Herr. apply Z.abs_case_strong; intros; nia. }
-    subst e. cbn in *. split; [lia|]. revert Herr. apply Z.abs_case_strong; intros; lia.
-  - assert (0 < 2 ^ (- e)) by (apply pow_pos_b; lia). split; [assumption|].
-    revert Herr. apply Z.abs_case_strong; intros; lia.
+  intros Hn. pose proof (round_float_exact_int 2 53 n ltac:(lia) ltac:(lia) Hn) as H.
+  unfold b64_of_rat. destruct (round_float 2 53 n 1) as [m e]. destruct H as [He Hm].
+  unfold rat_of_b64. destruct (Z.leb_spec 0 e).
+  - assert (e = 0) by lia. subst e. cbn in *. lia.
+  - split; [apply pow_pos_b; lia|assumption].
+Qed.
+
+(* ---------- the value of a Python number ---------- *)
+Lemma value_rat_pos is_int mant ex :
+  let '(vn, vd) := value_rat is_int mant ex in 0 <= vn /\ 0 < vd.
+Proof.
+  unfold value_rat. destruct (Z.leb_spec mant 0); [lia|].
+  destruct is_int.
+  - split; [|lia]. apply Z.mul_nonneg_nonneg; [lia|apply Z.pow_nonneg; lia].
+  - destruct (Z.leb_spec 0 ex).
+    + pose proof (b64_rat_spec (mant * 10 ^ ex) 1) as Hs.
+      destruct (rat_of_b64 (b64_of_rat (mant * 10 ^ ex) 1)) as [vn vd].
+      assert (0 < mant * 10 ^ ex) by (apply Z.mul_pos_pos; [lia|apply pow_pos_b; lia]).
+      specialize (Hs ltac:(assumption) ltac:(lia)). lia.
+    + pose proof (b64_rat_spec mant (10 ^ (- ex))) as Hs.
+      destruct (rat_of_b64 (b64_of_rat mant (10 ^ (- ex)))) as [vn vd].
+      assert (0 < 10 ^ (- ex)) by (apply pow_pos_b; lia).
+      specialize (Hs ltac:(assumption) ltac:(assumption)). lia.
+Qed.
+
+Lemma value_rat_int mant ex : 0 < mant -> value_rat true mant ex = (mant * 10 ^ ex, 1).
+Proof. intros. unfold value_rat. destruct (Z.leb_spec mant 0); [lia|reflexivity]. Qed.
+
+Lemma value_rat_zero is_int mant ex : mant <= 0 -> value_rat is_int mant ex = (0, 1).
+Proof. intros. unfold value_rat. destruct (Z.leb_spec mant 0); [reflexivity|lia]. Qed.
+
+(* a float whose decimal is an integer below 2^53 has exactly that value *)
+Lemma value_rat_float_int mant ex : 0 < mant -> 0 <= ex -> mant * 10 ^ ex < 2 ^ 53 ->
+  let '(vn, vd) := value_rat false mant ex in 0 < vd /\ vn = mant * 10 ^ ex * vd.
+Proof.
+  intros Hm He Hlt. unfold value_rat. destruct (Z.leb_spec mant 0); [lia|].
+  destruct (Z.leb_spec 0 ex); [|lia].
+  apply b64_int_exact. split; [|assumption]. apply Z.mul_pos_pos; [lia|apply pow_pos_b; lia].
 Qed.
